@@ -408,6 +408,7 @@ func (a *List) M__ne__(other Object) (Object, error) {
 type sortable struct {
 	l        *List
 	keyFunc  Object
+	keys     []Object // key of each item, computed once (nil if no keyFunc)
 	reverse  bool
 	firstErr error
 }
@@ -447,6 +448,9 @@ func (s ptrSortable) Swap(i, j int) {
 			s.s.firstErr = err
 		}
 	}
+	if s.s.keys != nil {
+		s.s.keys[i], s.s.keys[j] = s.s.keys[j], s.s.keys[i]
+	}
 }
 
 func (s ptrSortable) Less(i, j int) bool {
@@ -465,21 +469,8 @@ func (s ptrSortable) Less(i, j int) bool {
 		return false
 	}
 
-	if s.s.keyFunc != None {
-		itemI, err = Call(s.s.keyFunc, Tuple{itemI}, nil)
-		if err != nil {
-			if s.s.firstErr == nil {
-				s.s.firstErr = err
-			}
-			return false
-		}
-		itemJ, err = Call(s.s.keyFunc, Tuple{itemJ}, nil)
-		if err != nil {
-			if s.s.firstErr == nil {
-				s.s.firstErr = err
-			}
-			return false
-		}
+	if s.s.keys != nil {
+		itemI, itemJ = s.s.keys[i], s.s.keys[j]
 	}
 
 	var cmpResult Object
@@ -523,7 +514,30 @@ func SortInPlace(l *List, kwargs StringDict, funcName string) error {
 	if err != nil {
 		return err
 	}
-	s := ptrSortable{&sortable{l, keyFunc, ok, nil}}
-	sort.Stable(s)
-	return s.s.firstErr
+	// As in CPython the list is empty while it is being sorted, the key of
+	// each item is computed exactly once, and a list which was modified by
+	// the key or comparison functions is reported with a ValueError.
+	work := &List{Items: l.Items}
+	l.Items = nil
+	var keys []Object
+	if keyFunc != None {
+		keys = make([]Object, len(work.Items))
+		for i, item := range work.Items {
+			keys[i], err = Call(keyFunc, Tuple{item}, nil)
+			if err != nil {
+				break
+			}
+		}
+	}
+	s := ptrSortable{&sortable{work, keyFunc, keys, ok, nil}}
+	if err == nil {
+		sort.Stable(s)
+		err = s.s.firstErr
+	}
+	modified := l.Items != nil
+	l.Items = work.Items
+	if err == nil && modified {
+		err = ExceptionNewf(ValueError, "list modified during sort")
+	}
+	return err
 }
